@@ -53,11 +53,11 @@ theorem eqPy_symm {a b : Val} (h : eqPy a b = true) : eqPy b a = true := by
 theorem eqPy_trans {a b c : Val} (h1 : eqPy a b = true) (h2 : eqPy b c = true) : eqPy a c = true := by
   cases a <;> cases b <;> cases c <;> simp_all [eqPy]
 
-/-- the text Python's `str()` writes for `v` is read back (by the type's `in` coercer) as an equal value -/
+/-- the text the serializer writes for `v` (`pyStr` = the type's `out` coercer) is read back (by the type's `in` coercer) as an equal value -/
 def RTok (fs : Facts) (dt : Str) (v : Val) : Prop :=
   ∃ v', inp fs dt (pyStr v) = some v' ∧ eqPy v' v = true
 
-/-- an optional definition text coerces, and its value survives `str()` / `in` -/
+/-- an optional definition text coerces, and its value survives `out` / `in` -/
 def OptWF (fs : Facts) (dt : Str) (o : Option Str) : Prop :=
   ∀ s, o = some s → ∃ v, inp fs dt s = some v ∧ RTok fs dt v
 
@@ -69,7 +69,7 @@ theorem tv_roundtrip {fs : Facts} {dt : Str} {o : Option Str} (h : OptWF fs dt o
     obtain ⟨v, hv, v', hv', he⟩ := h s rfl
     simp [typed, tvOf, hv, hv', tvEq, he]
 
-/-- for the modelled codec families every coerced value survives `str()` / `in` -/
+/-- for the modelled codec families every coerced value survives `out` / `in` -/
 theorem rtok_int {fs : Facts} {dt : Str} (hf : famOf dt = some .int) (n : Int) : RTok fs dt (.int n) :=
   ⟨.int n, by simp [inp, hf, pyStr, out, pyInt_decOfInt], eqPy_refl _⟩
 theorem rtok_str {fs : Facts} {dt : Str} (hf : famOf dt = some .str) (s : Str) : RTok fs dt (.str s) :=
@@ -136,7 +136,7 @@ theorem allowedView_some {fs : Facts} {vd : VarDef}
   rfl
 
 /-- well-formed variable definition: an XML-name without blanks, a supported type, and texts that
-    coerce to values which survive Python's `str()` followed by the type's `in` coercer -/
+    coerce to values which survive the type's `out` coercer followed by its `in` coercer -/
 structure VarWF (fs : Facts) (vd : VarDef) : Prop where
   name_ok : ∀ c ∈ vd.name, isWs c = false
   fam_ok : (famOf vd.dtype).isSome = true
